@@ -10,8 +10,6 @@ import (
 	"strings"
 )
 
-const idxSort = "(_ BitVec 64)"
-
 type Item struct {
 	Oblig bool   // false: assumption
 	Guard string // reachability guard
@@ -39,22 +37,24 @@ type Gen struct {
 	boxed      map[string]bool
 	curPkg     *types.Package
 	vcBytes    int
+	intMode    bool // integers are mathematical (Int) with overflow obligations; otherwise bit-vectors
 	lemmaTerms []string
 	lemmaNames []string
 }
 
-func newGen(p *Program) *Gen {
-	g := &Gen{P: p, declSet: map[string]bool{}, heapSort: map[string]string{}, strLits: map[string]string{}, tags: map[string]int{},
+func newGen(p *Program, intMode bool) *Gen {
+	g := &Gen{P: p, intMode: intMode, declSet: map[string]bool{}, heapSort: map[string]string{}, strLits: map[string]string{}, tags: map[string]int{},
 		havocs: map[string]int{}, assumed: map[string]bool{}, boxed: map[string]bool{}}
 	g.decl("sort:Str", "(declare-sort Str 0)")
-	g.decl("fun:slen", "(declare-fun slen (Str) (_ BitVec 64))")
-	g.decl("fun:sat", "(declare-fun sat (Str (_ BitVec 64)) (_ BitVec 8))")
-	g.decl("dt:Slice", "(declare-datatype Slice ((mk_slice (s_arr Int) (s_off (_ BitVec 64)) (s_len (_ BitVec 64)) (s_cap (_ BitVec 64)))))")
+	is := g.IS()
+	g.decl("fun:slen", "(declare-fun slen (Str) "+is+")")
+	g.decl("fun:sat", "(declare-fun sat (Str "+is+") "+g.byteSort()+")")
+	g.decl("dt:Slice", "(declare-datatype Slice ((mk_slice (s_arr Int) (s_off "+is+") (s_len "+is+") (s_cap "+is+"))))")
 	g.decl("dt:Iface", "(declare-datatype Iface ((mk_iface (i_tag Int) (i_val Int))))")
 	g.decl("const:str_empty", "(declare-const str_empty Str)")
-	g.defs = append(g.defs, "(= (slen str_empty) #x0000000000000000)")
+	g.defs = append(g.defs, "(= (slen str_empty) "+g.ilit(0)+")")
 	// lengths are non-negative ints
-	g.defs = append(g.defs, "(forall ((s Str)) (! (bvsge (slen s) #x0000000000000000) :pattern ((slen s))))")
+	g.defs = append(g.defs, "(forall ((s Str)) (! "+g.ile(g.ilit(0), "(slen s)")+" :pattern ((slen s))))")
 	return g
 }
 
@@ -187,6 +187,9 @@ func (g *Gen) sortOf(t types.Type) string {
 	switch u := t.Underlying().(type) {
 	case *types.Basic:
 		if w, _, ok := intInfo(t); ok {
+			if g.intMode {
+				return "Int"
+			}
 			return fmt.Sprintf("(_ BitVec %d)", w)
 		}
 		switch {
@@ -213,7 +216,7 @@ func (g *Gen) sortOf(t types.Type) string {
 	case *types.Interface:
 		return "Iface"
 	case *types.Array:
-		return "(Array " + idxSort + " " + g.sortOf(u.Elem()) + ")"
+		return "(Array " + g.IS() + " " + g.sortOf(u.Elem()) + ")"
 	case *types.Struct:
 		if g.isOpaqueStruct(t) {
 			n := "O$" + typeKey(t)
@@ -277,6 +280,9 @@ func (g *Gen) zero(t types.Type) string {
 	switch u := t.Underlying().(type) {
 	case *types.Basic:
 		if w, _, ok := intInfo(t); ok {
+			if g.intMode {
+				return "0"
+			}
 			return bvInt(0, w)
 		}
 		switch {
@@ -294,7 +300,7 @@ func (g *Gen) zero(t types.Type) string {
 	case *types.Pointer, *types.Map, *types.Chan, *types.Signature:
 		return "0"
 	case *types.Slice:
-		return "(mk_slice 0 #x0000000000000000 #x0000000000000000 #x0000000000000000)"
+		return "(mk_slice 0 " + g.ilit(0) + " " + g.ilit(0) + " " + g.ilit(0) + ")"
 	case *types.Interface:
 		return "(mk_iface 0 0)"
 	case *types.Array:
@@ -373,10 +379,10 @@ func (g *Gen) strLit(s string) string {
 	n := fmt.Sprintf("strlit$%d", len(g.strLits))
 	g.strLits[s] = n
 	g.decls = append(g.decls, fmt.Sprintf("(declare-const %s Str)", n))
-	g.defs = append(g.defs, fmt.Sprintf("(= (slen %s) %s)", n, bvInt(int64(len(s)), 64)))
+	g.defs = append(g.defs, fmt.Sprintf("(= (slen %s) %s)", n, g.ilit(int64(len(s)))))
 	if len(s) <= 64 {
 		for i := 0; i < len(s); i++ {
-			g.defs = append(g.defs, fmt.Sprintf("(= (sat %s %s) %s)", n, bvInt(int64(i), 64), bvInt(int64(s[i]), 8)))
+			g.defs = append(g.defs, fmt.Sprintf("(= (sat %s %s) %s)", n, g.ilit(int64(i)), g.lit(big.NewInt(int64(s[i])), 8)))
 		}
 	}
 	return n
@@ -471,4 +477,101 @@ func ite(c, a, b string) string {
 		return a
 	}
 	return "(ite " + c + " " + a + " " + b + ")"
+}
+
+// ---------- mode-dependent integer helpers ----------
+
+// IS is the sort of indices, lengths and capacities (Go int).
+func (g *Gen) IS() string {
+	if g.intMode {
+		return "Int"
+	}
+	return "(_ BitVec 64)"
+}
+
+func (g *Gen) byteSort() string {
+	if g.intMode {
+		return "Int"
+	}
+	return "(_ BitVec 8)"
+}
+
+// lit: integer literal of width w.
+func (g *Gen) lit(v *big.Int, w int) string {
+	if g.intMode {
+		if v.Sign() < 0 {
+			return "(- " + new(big.Int).Neg(v).String() + ")"
+		}
+		return v.String()
+	}
+	return bvLit(v, w)
+}
+
+func (g *Gen) ilit(n int64) string { return g.lit(big.NewInt(n), 64) }
+
+func (g *Gen) iadd(a, b string) string {
+	if g.intMode {
+		return "(+ " + a + " " + b + ")"
+	}
+	return "(bvadd " + a + " " + b + ")"
+}
+
+func (g *Gen) isub(a, b string) string {
+	if g.intMode {
+		return "(- " + a + " " + b + ")"
+	}
+	return "(bvsub " + a + " " + b + ")"
+}
+
+func (g *Gen) ile(a, b string) string {
+	if g.intMode {
+		return "(<= " + a + " " + b + ")"
+	}
+	return "(bvsle " + a + " " + b + ")"
+}
+
+func (g *Gen) ilt(a, b string) string {
+	if g.intMode {
+		return "(< " + a + " " + b + ")"
+	}
+	return "(bvslt " + a + " " + b + ")"
+}
+
+// inRange: 0 <= i < n (n non-negative)
+func (g *Gen) inRange(i, n string) string {
+	if g.intMode {
+		return "(and (<= 0 " + i + ") (< " + i + " " + n + "))"
+	}
+	return "(bvult " + i + " " + n + ")"
+}
+
+// maxLen is the largest length/capacity/offset a slice may have.
+func (g *Gen) maxLen() string {
+	if g.intMode {
+		return "281474976710655"
+	}
+	return "#x0000ffffffffffff"
+}
+
+func intRange(w int, signed bool) (*big.Int, *big.Int) {
+	one := big.NewInt(1)
+	if signed {
+		hi := new(big.Int).Sub(new(big.Int).Lsh(one, uint(w-1)), one)
+		lo := new(big.Int).Neg(new(big.Int).Lsh(one, uint(w-1)))
+		return lo, hi
+	}
+	return big.NewInt(0), new(big.Int).Sub(new(big.Int).Lsh(one, uint(w)), one)
+}
+
+// rangeFact: x is representable in the integer type (only meaningful in int mode).
+func (g *Gen) rangeFact(x string, t types.Type) string {
+	if !g.intMode {
+		return "true"
+	}
+	w, signed, ok := intInfo(t)
+	if !ok {
+		return "true"
+	}
+	lo, hi := intRange(w, signed)
+	return fmt.Sprintf("(and (<= %s %s) (<= %s %s))", g.lit(lo, w), x, x, g.lit(hi, w))
 }
